@@ -658,6 +658,21 @@ class VecExpr:
             a, ta = self.tr(n.func.value)
             if ta == "v":
                 return (a, "v")          # the model's vectors are float64 already
+        if isinstance(n, ast.Call) and isinstance(n.func, ast.Attribute) and n.func.attr == "dot" and len(n.args) == 1 and not n.keywords:
+            (a, ta), (b, tb) = self.tr(n.func.value), self.tr(n.args[0])
+            if ta == tb == "v" and "vdot" in self.env:
+                return (f"({self.env['vdot'][0]} {a} {b})", "f")       # BLAS dot product: an oracle
+        if isinstance(n, ast.BinOp) and isinstance(n.op, (ast.Mult, ast.Add, ast.Sub, ast.Div)):
+            (a, ta), (b, tb) = self.tr(n.left), self.tr(n.right)
+            if ta == tb == "f":
+                op = {ast.Add: "add", ast.Sub: "sub", ast.Mult: "mul", ast.Div: "div"}[type(n.op)]
+                return (f"(PrimFloat.{op} {a} {b})", "f")
+        if isinstance(n, ast.Compare) and len(n.ops) == 1 and isinstance(n.ops[0], (ast.Gt, ast.Lt, ast.GtE, ast.LtE)):
+            (a, ta), (b, tb) = self.tr(n.left), self.tr(n.comparators[0])
+            if ta == tb == "f":
+                t_ = type(n.ops[0])
+                return ({ast.Gt: f"(PrimFloat.ltb {b} {a})", ast.Lt: f"(PrimFloat.ltb {a} {b})",
+                         ast.GtE: f"(PrimFloat.leb {b} {a})", ast.LtE: f"(PrimFloat.leb {a} {b})"}[t_], "b")
         if isinstance(n, ast.BinOp) and isinstance(n.op, ast.Mult):
             (a, ta), (b, tb) = self.tr(n.left), self.tr(n.right)
             if ta == "f" and tb == "v":
@@ -765,6 +780,47 @@ def gen_base():
         raise TranslateError("the projection sites are not the same expression")
     L.append(f"Definition projected_point (x : vec) (a : float) (d lb ub : vec) : vec := {terms.pop()}.")
     L.append("Definition projection_sites_src : list string := [" + "; ".join(coq_string(w + ": " + ast.unparse(c_)) + "%string" for w, c_, _ in sites) + "].")
+    # bfgsmats.is_update_X_and_G (the curvature test): assignments, then `if <test>: return True` / `return False`
+    bt = ast.parse(_src("bfgsmats.py"))
+    fn = _func(bt, "is_update_X_and_G")
+    if [a.arg for a in fn.args.args] != ["xk", "gk", "x_old", "g_old", "eps"]:
+        raise TranslateError("is_update_X_and_G: unexpected parameters")
+    body = [st for st in fn.body if not (isinstance(st, ast.Expr) and isinstance(st.value, ast.Constant))]
+    env = {"xk": ("xk", "v"), "gk": ("gk", "v"), "x_old": ("x_old", "v"), "g_old": ("g_old", "v"), "eps": ("eps", "f"), "vdot": ("vdot", "o")}
+    lets = []
+    while body and isinstance(body[0], ast.Assign) and len(body[0].targets) == 1 and isinstance(body[0].targets[0], ast.Name):
+        t_, ty_ = VecExpr(env).tr(body[0].value)
+        nm = body[0].targets[0].id
+        lets.append(f"let {nm} := {t_} in")
+        env[nm] = (nm, ty_)
+        body = body[1:]
+    if not (len(body) == 2 and isinstance(body[0], ast.If) and not body[0].orelse and len(body[0].body) == 1 and ast.unparse(body[0].body[0]) == "return True"
+            and ast.unparse(body[1]) == "return False"):
+        raise TranslateError("is_update_X_and_G: unexpected tail " + "; ".join(ast.unparse(b_) for b_ in body))
+    c_, tc_ = VecExpr(env).tr(body[0].test)
+    if tc_ != "b":
+        raise TranslateError("is_update_X_and_G: test is not boolean")
+    L.append("Definition is_update_X_and_G (vdot : vec -> vec -> float) (xk gk x_old g_old : vec) (eps : float) : bool :=\n  "
+             + " ".join(lets) + f" if {c_} then true else false.")
+    # bfgsmats.update_X_and_G: the bounded history (two deques mutated in place) as a function returning (accepted, X, G)
+    fn = _func(bt, "update_X_and_G")
+    if [a.arg for a in fn.args.args] != ["xk", "gk", "X", "G", "maxcor", "eps"]:
+        raise TranslateError("update_X_and_G: unexpected parameters")
+    body = [st for st in fn.body if not (isinstance(st, ast.Expr) and isinstance(st.value, ast.Constant))]
+    src = [ast.unparse(b_) for b_ in body]
+    want_head = "if not is_update_X_and_G(xk, gk, X[-1], G[-1], eps):\n    return False"
+    if len(body) != 5 or src[0] != want_head or src[1] != "X.append(xk)" or src[2] != "G.append(gk)" or src[4] != "return True":
+        raise TranslateError("update_X_and_G: unexpected statements " + " | ".join(src))
+    tr_ = body[3]
+    if not (isinstance(tr_, ast.If) and not tr_.orelse and [ast.unparse(b_) for b_ in tr_.body] == ["X.popleft()", "G.popleft()"]
+            and isinstance(tr_.test, ast.Compare) and len(tr_.test.ops) == 1 and isinstance(tr_.test.ops[0], ast.Gt)
+            and ast.unparse(tr_.test.left) == "len(X)" and ast.unparse(tr_.test.comparators[0]) == "maxcor + 1"):
+        raise TranslateError("update_X_and_G: unexpected trimming statement " + ast.unparse(tr_))
+    L.append("From Coq Require Import ZArith.")
+    L.append("Definition update_X_and_G (vdot : vec -> vec -> float) (xk gk : vec) (X G : list vec) (maxcor : Z) (eps : float) : bool * list vec * list vec :=\n"
+             "  if negb (is_update_X_and_G vdot xk gk (List.last X []) (List.last G []) eps) then (false, X, G)\n"
+             "  else let X := X ++ [xk] in let G := G ++ [gk] in\n"
+             "       if (Z.of_nat (List.length X) >? maxcor + 1)%Z then (true, List.tl X, List.tl G) else (true, X, G).")
     # the call sites in main.py: is_boxed, the loop guard and the final test
     mt = ast.parse(_src("main.py"))
     mf = _func(mt, "minimize_lbfgsb")
